@@ -25,6 +25,10 @@ Toks == { <<60,97,62>>, <<60,47,97,62>>, <<60,98,62>>, <<60,47,98,62>>, <<60,97,
           <<60,97,32,107,61,34,49,34,62>>,                                                      \* <a k="1">
           <<60,98,32,120,115,105,58,110,105,108,61,34,116,114,117,101,34,47,62>> }              \* <b xsi:nil="true"/>
 
+\* tokens that matter inside one text run of an element (Mode "textrun": <a> + tokens [+ </a>])
+TextToks == { <<116>>, <<32>>, <<60,33,91,67,68,65,84,65,91,99,93,93,62>>, <<60,33,45,45,120,45,45,62>>,
+              <<60,33,68,79,67,84,89,80,69,32,100,62>>, <<38,108,116,59>>, <<60,47,97,62>> }
+
 \* ---------------------------------------------------------------- rendering logical events
 EscText(s) == Esc(s, "partial")
 RenderAttrs(attrs, q, sp, rev) ==
@@ -147,12 +151,13 @@ ListFields(tyn) == IF tyn = "F22" THEN {n_a, n_b} ELSE IF tyn = "F23" THEN {n_a,
 VARIABLES ty, v, doc, toks, phase
 dvars == <<ty, v, doc, toks, phase>>
 NoV == [z |-> 1]
-Init == /\ phase = 0 /\ doc = <<>> /\ toks = 0 /\ v = NoV
-        /\ ty \in (IF Mode = "soup" THEN {"-"} ELSE Types)
-SoupNext == /\ Mode = "soup" /\ toks < N
-            /\ \E t \in Toks : doc' = doc \o t
+IsSoup == Mode \in {"soup", "textrun"}
+Init == /\ phase = 0 /\ doc = (IF Mode = "textrun" THEN <<60, 97, 62>> ELSE <<>>) /\ toks = 0 /\ v = NoV
+        /\ ty \in (IF IsSoup THEN {"-"} ELSE Types)
+SoupNext == /\ IsSoup /\ toks < N
+            /\ \E t \in (IF Mode = "textrun" THEN TextToks ELSE Toks) : doc' = doc \o t
             /\ toks' = toks + 1 /\ UNCHANGED <<ty, v, phase>>
-ValNext == /\ Mode # "soup" /\ phase = 0
+ValNext == /\ ~IsSoup /\ phase = 0
            /\ \E x \in ValuesOf(ty, StrRT, "rt") : v' = x
            /\ phase' = 1 /\ UNCHANGED <<ty, doc, toks>>
 Next == SoupNext \/ ValNext
@@ -162,9 +167,9 @@ Tree == SerTree(v, TypeOf(ty), RootBytes(ty))
 Base == RenderDoc(Tree, BaseStyle)
 
 \* C07: the lemma behind the unreachable!() sites, on every token soup
-Inv_NoTwoTexts == Mode = "soup" => NoTwoTexts(DeEvents(doc, SkipDoctype))
+Inv_NoTwoTexts == IsSoup => NoTwoTexts(DeEvents(doc, SkipDoctype))
 \* the stream always ends (Eof or an error) and is bounded by the input
-Inv_DeBounded == Mode = "soup" =>
+Inv_DeBounded == IsSoup =>
     LET D == DeEvents(doc, SkipDoctype) IN D # <<>> /\ D[Len(D)][1] \in {"Eof", "Err"} /\ Len(D) <= Len(doc) + 2
 
 \* C15: the DeEvent stream does not depend on the lexical presentation
@@ -187,7 +192,7 @@ Inv_Inter ==
 
 Inv_Emit ==
     Emit =>
-        CASE Mode = "soup" -> PrintT(<<"REPLAY", ToJson([doc |-> doc])>>)
+        CASE IsSoup -> PrintT(<<"REPLAY", ToJson([doc |-> doc])>>)
           [] Mode = "rewrite" /\ phase = 1 ->
                 PrintT(<<"REPLAY", ToJson([ty |-> ty, v |-> v, base |-> Base,
                                            docs |-> {RenderDoc(Tree, st) : st \in Rewrites(Tree, ty) \cup Combos(Tree, ty)}])>>)
